@@ -2,9 +2,11 @@ package main
 
 import (
 	"fmt"
+	"math"
 	"os"
 	"path/filepath"
 	"runtime"
+	"sort"
 	"strings"
 
 	"github.com/benoitkugler/textprocessing/fontconfig"
@@ -377,6 +379,30 @@ func (rn *runner) do(op Op, res *OpResult) {
 		for _, t := range rec.Texts {
 			if t.Page >= 0 && t.Page < len(res.PageWords) {
 				res.PageWords[t.Page] = append(res.PageWords[t.Page], splitWords(t.Text)...)
+			}
+		}
+		res.PageLines = make([][]LineRec, len(rec.Pages))
+		for pg := range res.PageLines {
+			byY := map[int64][]TextCall{}
+			for _, t := range rec.Texts {
+				if t.Page == pg {
+					k := int64(math.Round(t.Y * 100))
+					byY[k] = append(byY[k], t)
+				}
+			}
+			var ys []int64
+			for k := range byY {
+				ys = append(ys, k)
+			}
+			sort.Slice(ys, func(i, j int) bool { return ys[i] > ys[j] }) // device y grows upwards: top line first
+			for _, k := range ys {
+				ts := byY[k]
+				sort.SliceStable(ts, func(i, j int) bool { return ts[i].X < ts[j].X })
+				lr := LineRec{Y: float64(k) / 100}
+				for _, t := range ts {
+					lr.Words = append(lr.Words, splitWords(t.Text)...)
+				}
+				res.PageLines[pg] = append(res.PageLines[pg], lr)
 			}
 		}
 		if rn.spec.Detail {
